@@ -211,3 +211,26 @@ func init() {
 	old := registry["C06"].Run
 	registry["C06"].Run = func(c *Ctx) { old(c); c06S7(c) }
 }
+
+// S8 (mirrors of C14-B2 and C05-R4, the two neighbouring mechanisms a restart depends on): the snapshot recorded as
+// <term>-<index> must not contain entries after index, or the WAL replay after a restart applies them twice —
+// GetSnapshot returns to the apply loop only after the checkpoint has pinned its view (WaitReady); and a reader that moves
+// on to the next WAL segment restarts its valid-offset count, or the tail segment is appended at the wrong offset and the
+// next restart fails on a CRC mismatch.
+func c06S8(c *Ctx) {
+	r := c.R
+	r.Clause("C06-S8", "the apply loop resumes only after the checkpoint pinned its view; segment switch resets the valid offset (mirrors)")
+	if u := c.unit("C06-S8", "node.(*kvStoreSM).GetSnapshot"); u != nil {
+		ok := an.Return().Where("success", func(u *an.Unit, s *an.Site) bool { return !an.ErrorReturn(u, s) })
+		r.OrderSites("C06-S8", u, u.Match(ok), nil, []an.M{an.Call("rockredis.(*BackupInfo).WaitReady")}, an.OrderOpts{})
+	}
+	if u := c.unit("C06-S8", "wal.(*decoder).decodeRecord"); u != nil {
+		zero := an.Store("wal.decoder.lastValidOff").Where("= 0", func(u *an.Unit, s *an.Site) bool { return s.RHS != nil && u.C.Term(s.RHS) == "0" })
+		r.Follow("C06-S8", u, an.Store("wal.decoder.brs"), []an.M{zero}, an.FollowOpts{ErrorExitsExempt: true, Min: 1})
+	}
+}
+
+func init() {
+	old := registry["C06"].Run
+	registry["C06"].Run = func(c *Ctx) { old(c); c06S8(c) }
+}
